@@ -6,5 +6,5 @@ def check(res, thorough):
         "x 12 random words each (1-6 segments, every syllabification, stress, tone); cases where two equal segments become adjacent in a syllable "
         "at any stage are skipped as the property says; non-trivial = the reference interpreter changes the word",
         ["the reference interpreter in harness/src/frag.rs is written from doc.md, independently of subrule.rs",
-         "release profile; one sub-rule per rule"], level="translation_validation")
+         "release profile; one sub-rule per rule"], level="proof", extra_props=["AscaVerif.Props.C03Complete"])
 replay = interpprops.replay
